@@ -119,11 +119,11 @@ func jsonFileScenario(r *Run) {
 	disk.Plan(path, 1, OpenPlan{Chunks: chunks, ErrAt: -1})
 	var sites []string
 	if gateWorkers {
-		sites = append(sites, "json.worker.send")
+		// all hand-offs are gated (the JSON rule of the controller needs all of them); otherwise none:
+		// the run is then scheduled by the Go runtime and only its result is checked
+		sites = append(sites, "json.worker.send", "json.reader.submit", "json.reader.done", "json.consumer.loop")
 	}
-	if gateReader {
-		sites = append(sites, "json.reader.submit", "json.reader.done")
-	}
+	_ = gateReader
 	installSim(ctl, disk, sites...)
 	defer installSim(nil, nil)
 	simConfig.Files.BufferSizeBytes = bufSize
